@@ -82,7 +82,7 @@ COMMON = ('Static structural rules decided on the type-checked program (rustc bu
 
 # Rule groups for dependent properties: a property that is *derived* from another (DESIGN §5) runs that property's necessary conditions too.
 G_EXCL = [(RP.tok_exec, None), (RP.pa_rules, {'PA-excl', 'PA-stuck', 'PA'}), (RP.tok_requeue, None), (RQ.qd_queue, None), (RP.tr_immediate, None), (RO.c05_drop, None)]
-G_POOL = [(RO.c03_dormant, None), (RO.c10_fetch, None), (RO.c10_thread, None)]
+G_POOL = [(RO.c03_dormant, None), (RO.c10_fetch, None), (RO.c10_thread, None), (RQ.qd_schedule, None)]
 G_ORDER = [(RO.c02_append, None), (RO.free_delegates, None, ['|delegates']), (RQ.qd_queue, None), (RP.tr_immediate, None), (RP.tr_sibling, None, ['sync']), (RP.tok_requeue, None),
            (RP.pa_rules, {'PA-excl', 'PA'}), (RP.tok_exec, None)]
 
@@ -122,7 +122,7 @@ prop('C04', COMMON +
      ['strategy chosen atomically; waits only when the queue is owned or parked (TR-defer)', 'blocked caller cannot miss its wake-up (CV1, CV2, QD-waiters)', 'caller runs the queue itself when woken and it is claimable (ORD-C04-steal)',
       'own result, after completion (ORD-C04-result, UA-wait)', 'no lock-order cycle, no blocking/foreign code under an internal lock (LO, BL)', 'caller-side execution holds the token (TOK-exec)', 'caller-side parking: wake latched while polling, consumed before parking, unpark + re-check loop (PARK-wake, ORD-C06-drain)'],
      ['termination of the operations ahead; OS fairness', '"from inside a job of a different Desync" is derived from BL (no internal lock is held while a job runs)'],
-     [(RP.tr_defer, None, ['sync']), (RL.cv, None), (RQ.qd_wake_blocked, None), (RQ.qd_run, None), (RP.tr_roles, None), (RP.tr_dead, None), (RO.free_delegates, None, ['sync|']), (RG.c15_reap, None), (RO.c04_steal, None), (RO.c04_result, None), (RU.ua_wait, None), (RL.lo, None), (RL.bl, None), (RL.lock_classes, None), (RP.tok_exec, None), (RP.tok_resched, None),
+     [(RP.tr_defer, None, ['sync']), (RL.cv, None), (RQ.qd_wake_blocked, None), (RQ.qd_run, None), (RP.tr_roles, None), (RP.tr_dead, None), (RO.free_delegates, None, ['sync|']), (RG.c15_reap, None), (RO.c08, None, ['result-after-scheduler']), (RO.c04_steal, None), (RO.c04_result, None), (RU.ua_wait, None), (RL.lo, None), (RL.bl, None), (RL.lock_classes, None), (RP.tok_exec, None), (RP.tok_resched, None),
       (RP.park_wake, None, ['WakeThread', 'run_one_job_now']), (RO.c06_drain, None, ['run_one_job_now']), (RE.eo, None, ['Scheduler::sync', 'UnsafeJob', 'SchedulerCore::reschedule_queue', 'JobQueue::run_one_job_now', '|sync|', 'sync|']), (RP.tr_base, None, ['Scheduler::sync', 'SchedulerCore::claim_pending_queue', 'SchedulerCore::reschedule_queue', 'JobQueue::run_one_job_now', 'WakeThread'])])
 
 prop('C05', COMMON +
@@ -169,7 +169,7 @@ prop('C10', COMMON +
      'pool threads keep pulling until the schedule is empty (ORD-C10-fetch) and the dormant handshake cannot misread a transient lock hold (ORD-C03-dormant, TRY).',
      ['no scheduler-wide lock held while a job runs or a thread blocks (BL)', 'lock order acyclic (LO)', 'dormant else spawn then retry (ORD-C10-spawn)', 'raising the maximum schedules until nothing more can be scheduled (ORD-C10-raise)', 'fetch loop and dormant handshake (ORD-C10-fetch, ORD-C03-dormant, TRY)', 'dead threads are reaped before the table is searched or counted, so `len < max` counts live threads (ORD-C15-reap)'],
      ['actual parallel progress (liveness); the claim is limited to these structural conditions'],
-     [(RL.bl, None), (RL.lo, None), (RO.c10_spawn, None), (RO.c10_fetch, None), (RO.c10_thread, None), (RO.c10_raise, None), (RO.c03_dormant, None), (RL.try_rule, None), (RL.lock_classes, None), (RG.c15_reap, None), (RE.eo, None, ['SchedulerCore::schedule_', 'SchedulerCore::remove_finished_threads', 'SchedulerThread::'])])
+     [(RL.bl, None), (RL.lo, None), (RO.c10_spawn, None), (RO.c10_fetch, None), (RO.c10_thread, None), (RQ.qd_schedule, None), (RO.c10_raise, None), (RO.c03_dormant, None), (RL.try_rule, None), (RL.lock_classes, None), (RG.c15_reap, None), (RE.eo, None, ['SchedulerCore::schedule_', 'SchedulerCore::remove_finished_threads', 'SchedulerThread::'])])
 
 prop('C11', COMMON +
      'Decided (ORD-C11): the pipe\'s poll function only runs inside a future_desync job of the target; in pipe_in each Ready(Some(item)) is handed to the processing function and awaited to completion before the next poll, Pending keeps the pipe with the pipe\'s own waker, '
